@@ -62,9 +62,9 @@ class Boom(Exception):
     pass
 
 
-def stream_recipes():
+def stream_recipes(nmax=3):
     out = []
-    for n in range(0, 4):
+    for n in range(0, nmax + 1):
         for raise_at in [None] + list(range(0, n + 1)):
             for kind in ("stream", "sse"):
                 out.append((kind, n, raise_at))
@@ -73,7 +73,7 @@ def stream_recipes():
 
 def build_stream(iface, kind, n, raise_at):
     m = mod_for(iface)
-    items = [b"", b"a", b"bb", b""][:n] if kind == "stream" else [{"data": "x"}, {"event": "e"}, {"id": "1", "data": "y\nz"}, {"retry": 5}][:n]
+    items = [b"", b"a", b"bb", b"", b"ccc", b"d"][:n] if kind == "stream" else [{"data": "x"}, {"event": "e"}, {"id": "1", "data": "y\nz"}, {"retry": 5}, {}, {"data": ""}][:n]
 
     def sgen():
         for i, it in enumerate(items):
@@ -242,7 +242,7 @@ def run_shard(desc, tier):
         r.sample({"iface": iface, "recipe": small_recipes()[k][0], "faults": "send()/close() at every position"})
     elif desc[0] == "streams":
         iface = desc[1]
-        for kind, n, raise_at in stream_recipes():
+        for kind, n, raise_at in stream_recipes(3 if tier == "quick" else 6):
             name = f"{kind} n={n} raise_at={raise_at}"
             res = call(iface, build_stream(iface, kind, n, raise_at))
             ok = judge(r, iface, name, res, None if raise_at is None else f"producer raises at step {raise_at}", expect_exc=Boom)
